@@ -66,6 +66,12 @@ func main() {
 		probe(os.Args[2:])
 	case "selftest":
 		os.Exit(selftest(os.Args[2:]))
+	case "trypatch":
+		// trypatch <Cxx> <patch.diff>: run the property's rules on the tree with the patch applied in memory
+		if len(os.Args) < 4 {
+			usage()
+		}
+		os.Exit(tryPatch(os.Args[2], os.Args[3]))
 	case "explain":
 		if len(os.Args) < 3 {
 			usage()
@@ -118,7 +124,16 @@ func runRules(p *Prop, r *Run) {
 		}
 	}()
 	p.Fn(r)
+	for _, f := range extraRules[p.ID] {
+		f(r)
+	}
 }
+
+// extraRules: rules added to a property after its first rule file was written
+// (mostly after a seeded change was missed); run after the property's own Fn.
+var extraRules = map[string][]func(*Run){}
+
+func extend(id string, f func(*Run)) { extraRules[id] = append(extraRules[id], f) }
 
 // MustFn resolves an anchor function or records an undecided obligation.
 func (r *Run) MustFn(rule, rel, name string) *ssa.Function {
